@@ -60,8 +60,8 @@ func focusJudge(c *ProgCase, o Obs) (bool, string) {
 func init() {
 	// ------------------------------------------------------------------ C03
 	register("C03", func(r *Reporter) {
-		r.Cov["rule"] = "TLC enumerates the Shadow family of spec/Families.tla (fast/slow condition producer x 10 branch and jump kinds x every shadow of 1..2 instructions over register writes, stores, loads and jal x both branch outcomes by data); plus the Call family (a leaf function called from 2..3 sites returning through jalr, with an instruction after the jalr that is never on the path); each case runs on MVP-4..8 x parallelism 1..4; the focus set (registers and bytes the shadow would write) must hold the sequential values and the run must not fail. Non-trivial = the branch is taken (the shadow is on the wrong path)"
-		runFamily(r, "C03", []famRun{famRunOf("Shadow", sizeForTier()), famRunOf("Call", sizeForTier())}, cfgsFrom(4),
+		r.Cov["rule"] = "TLC enumerates the Shadow family of spec/Families.tla (fast/slow condition producer x 10 branch and jump kinds x every shadow of 1..2 instructions over register writes, stores, loads and jal x both branch outcomes by data); plus the Shadow2 family (shadow stores to a line that is already Modified in an L1, with 0..6 independent instructions varying the dispatch alignment; a shadow jump whose target lies beyond the branch target) and the Call family (a leaf function called from 2..3 sites returning through jalr, with an instruction after the jalr that is never on the path); each case runs on MVP-4..8 x parallelism 1..4; the focus set (registers and bytes the shadow would write) must hold the sequential values and the run must not fail. Non-trivial = the branch is taken (the shadow is on the wrong path)"
+		runFamily(r, "C03", []famRun{famRunOf("Shadow", sizeForTier()), famRunOf("Call", sizeForTier()), famRunOf("Shadow2", "small")}, cfgsFrom(4),
 			func(c *ProgCase) bool { return c.extraBool("taken") },
 			func(c *ProgCase, o Obs) (bool, string) {
 				if !c.extraBool("taken") {
